@@ -36,6 +36,10 @@ FORMS = {
     "fixed_extensions": [(["fixed_extensions: for"], ["for"], ["for"]), (["fixed_extensions: for"], "for", ["for"])],
     "alias": [(["alias: a = b"], {"a": "b"}, {"a": "b"}), (["alias: a = b", "    c = d e"], {"a": "b", "c": "d e"}, {"a": "b", "c": "d e"})],
     "docmark": [(["docmark: ~"], "~", "~"), (["docmark: %"], "%", "%")],
+    # an empty value switches an option with a non-empty default off
+    "docmark_alt": [(["docmark_alt: +"], "+", "+"), (["docmark_alt:"], "", ""), (["docmark_alt: "], "", "")],
+    "predocmark_alt": [(["predocmark_alt:"], "", ""), (["predocmark_alt: #"], "#", "#")],
+    "year": [(["year: 1999"], "1999", "1999"), (["year:"], "", "")],
     # the layouts the user guide shows for multi-valued options: first value on the key's line, or the key on a line of
     # its own followed by indented values; an empty value
     "extra_filetypes": [(["extra_filetypes: c //"], [{"extension": "c", "comment": "//"}], "EFT:c|//|None"),
